@@ -52,6 +52,8 @@ def canon(v):
         return repr(v[1])
     if v[0] == "bool":
         return str(v[1]).lower()
+    if v[0] == "fmt":
+        return "`" + "".join(x if isinstance(x, str) else "{" + canon(x) + "}" for x in v[1]) + "`"
     if v[0] == "any":
         return "<any>"
     if v[0] == "err":
@@ -109,6 +111,29 @@ def _factors(k):
     return out
 
 
+def _fmt_norm(parts):
+    """merge adjacent literals, drop empty ones, inline string-valued arguments"""
+    out = []
+    for x in parts:
+        if not isinstance(x, str) and x is not None and not is_form(x) and x[0] == "str":
+            x = x[1]
+        if not isinstance(x, str) and x is not None and not is_form(x) and x[0] == "fmt":
+            for y in _fmt_norm(x[1]):
+                if isinstance(y, str) and out and isinstance(out[-1], str):
+                    out[-1] += y
+                else:
+                    out.append(y)
+            continue
+        if isinstance(x, str):
+            if not x:
+                continue
+            if out and isinstance(out[-1], str):
+                out[-1] += x
+                continue
+        out.append(x)
+    return out
+
+
 def mul(a, b):
     """product of two forms, distributed into monomials: the domain is polynomial in its symbols and atoms"""
     out = {}
@@ -148,6 +173,9 @@ def equal(a, b):
         return equal(a[1], b[1])
     if a[0] == "none":
         return True
+    if a[0] == "fmt":
+        pa, pb = _fmt_norm(a[1]), _fmt_norm(b[1])
+        return len(pa) == len(pb) and all((x == y) if isinstance(x, str) or isinstance(y, str) else equal(x, y) for x, y in zip(pa, pb))
     if a[0] == "if":
         return equal(a[1], b[1]) and equal(a[2], b[2])
     return False
@@ -444,6 +472,10 @@ class Evaluator:
             for f in n["fields"]:
                 out[f["name"]] = self.eval(f["v"], env, st)
             return ("struct", out)
+        if k in ("Block", "Call") and n.get("exp"):
+            f = self._format(n, env, st)
+            if f is not None:
+                return f
         if k == "Block":
             # lets are scoped to the block, assignments to outer locals persist
             saved = {}
@@ -604,6 +636,45 @@ class Evaluator:
                 return atom(op.lower(), sorted([a, b], key=canon))
             return atom(op.lower(), [a, b])
         return None
+
+    def _format(self, n, env, st):
+        """format!(..) expansion -> ("fmt", [literal | value ...]); None when n is not one"""
+        tpl = tup = arr = None
+        for m in hirq.walk(n):
+            if not isinstance(m, dict):
+                continue
+            if m.get("k") == "Call" and hirq.callee_path(m).endswith("Arguments::<'a>::new") and m.get("args") and tpl is None:
+                for a in hirq.walk(m["args"][0]):
+                    if isinstance(a, dict) and a.get("k") == "Lit" and isinstance(a.get("lit"), dict) and "bytes" in a["lit"]:
+                        tpl = a["lit"]["bytes"]
+            if m.get("k") == "Call" and hirq.callee_path(m).split("::")[-1] in ("from_str", "new_const") and "Arguments" in hirq.callee_path(m) and m.get("args"):
+                s0 = hirq.lit_str(m["args"][0]) if m["args"][0].get("k") == "Lit" else None
+                if s0 is not None:
+                    return ("fmt", [s0])
+            if m.get("k") == "Let" and isinstance(m.get("pat"), dict) and m["pat"].get("name") == "args" and isinstance(m.get("init"), dict):
+                if m["init"].get("k") == "Tup" and tup is None:
+                    tup = m["init"]["items"]
+                elif m["init"].get("k") == "Array" and arr is None:
+                    arr = m["init"].get("items", [])
+        if tpl is None:
+            return None
+        vals = []
+        if arr is not None:
+            for it in arr:
+                src = None
+                for f in hirq.walk(it):
+                    if isinstance(f, dict) and f.get("k") == "Field" and str(f.get("name", "")).isdigit() and tup is not None:
+                        idx = int(f["name"])
+                        if idx < len(tup):
+                            src = tup[idx]
+                vals.append(self.eval(src, env, st) if src is not None else None)
+        parts = []
+        for kind, v in hirq.decode_template(tpl):
+            if kind == "lit":
+                parts.append(v)
+            else:
+                parts.append(vals[v] if v is not None and v < len(vals) else None)
+        return ("fmt", parts)
 
     def _join(self, c, t, e):
         if is_form(c) and is_form(t) and is_form(e):
@@ -787,16 +858,18 @@ class Evaluator:
             recv = ("obj", self.type_alias[rty])
         if name in self.watch:
             self.calls.append(dict(name=name, recv=recv, args=args, line=n.get("line")))
-        if name in ("get", "get_attr", "pop", "pop_attr") and len(args) == 1 and args[0] is not None and not is_form(args[0]) and args[0][0] == "str" and ("AttrMap" in rty or "SvgElement" in rty):
+        if name in ("get", "get_attr", "pop", "pop_attr") and len(args) == 1 and args[0] is not None and not is_form(args[0]) and args[0][0] == "str" and ("AttrMap" in rty or "SvgElement" in rty or "HashMap<std::string::String, std::string::String" in rty):
             # reading an attribute: the value is the symbol @name (the attribute is assumed present unless listed absent)
             if args[0][1] in self.absent or (self.present is not None and args[0][1] not in self.present):
                 return ("none",)
             return ("some", ("obj", "@" + args[0][1].replace("-", "_")))
+        if name == "contains_key" and len(args) == 1 and args[0] is not None and not is_form(args[0]) and args[0][0] == "str" and ("AttrMap" in rty or "HashMap<std::string::String, std::string::String" in rty):
+            return ("bool", not (args[0][1] in self.absent or (self.present is not None and args[0][1] not in self.present)))
         if name == "has_attr" and len(args) == 1 and args[0] is not None and not is_form(args[0]) and args[0][0] == "str" and "SvgElement" in rty:
             return ("bool", not (args[0][1] in self.absent or (self.present is not None and args[0][1] not in self.present)))
         if name in TRANSPARENT or name in self.transparent:
             return recv
-        if name in ("to_string", "to_owned", "as_str") and recv is not None and not is_form(recv) and recv[0] == "str":
+        if name in ("to_string", "to_owned", "as_str") and recv is not None and not is_form(recv) and recv[0] in ("str", "fmt"):
             return recv
         if name in ("unwrap_or", "unwrap_or_else", "unwrap", "expect", "unwrap_or_default") and recv is not None and not is_form(recv) and recv[0] == "some":
             return recv[1]
@@ -1072,6 +1145,8 @@ def ref(x):
     if isinstance(x, dict):
         if "$some" in x:
             return ("some", ref(x["$some"]))
+        if "$fmt" in x:
+            return ("fmt", [y[4:] if isinstance(y, str) and y.startswith("lit:") else ref(y) for y in x["$fmt"]])
         if "$if" in x:
             return ("if", ref(x["$if"][0]), ref(x["$if"][1]))
         if "$match" in x:
